@@ -21,7 +21,7 @@
 
    [relax] switches on the two known classes of violations (see
    known_findings.json F-C10a, F-C10b); the property is [Erased strict]. *)
-From DG Require Import Base.Util Base.Sexp Model.FcSummary.
+From DG Require Import Base.Util Base.Sexp Model.FcSummary Model.FcTransform.
 
 Record relax := { rx_arrow : bool; rx_sig : bool; rx_bare : bool }.
 Definition strict : relax := {| rx_arrow := false; rx_sig := false; rx_bare := false |}.
@@ -328,9 +328,53 @@ Definition run_c10_module (s : sexp) : sexp :=
   | None => decode_error
   end.
 
-(* input = [(module summary)...] (the emitted modules of one package run) *)
+(* input = (0 (module summary...))  the emitted modules of one package run: judged by erasedb
+           (1 (unit...))             public function-likes of a source module: what the MODEL of the
+                                     transform (Model/FcTransform.v) produces for each, compared with
+                                     what the real transform produced *)
 Definition run_c10 (input : sexp) : sexp :=
   match input with
   | L [A 0; L ms] => L (map run_c10_module ms)
+  | L [A 1; L us] => L (map run_unit us)
   | _ => decode_error
   end.
+
+(* ================================================================ source-level reading of the known classes *)
+
+(* [gf_f r f]: the source function-like f (and everything nested in it that the transform keeps)
+   contains none of the constructs behind the known classes that r does not switch on:
+   an arrow without return type whose expression body is not simply inferable (F-C10a), a bodyless
+   signature without return type (F-C10b). *)
+Section Gap.
+  Variable r : relax.
+  Fixpoint gf_e (e : sx) : bool :=
+    match e with
+    | SNode l | STpl l => forallb gf_e l
+    | SSat e' => gf_e e'
+    | SFnE f | SArrowE f => gf_f f
+    | _ => true
+    end
+  with gf_f (f : sfn) : bool :=
+    match f with
+    | SFn k ps ret _ _ _ b _ =>
+        forallb gf_p ps &&
+        (if is_arrow_kind k then
+           match ret, b with
+           | TyNone, SBExpr e => match infer e with Some _ => true | None => rx_arrow r && gf_e e end
+           | _, _ => true
+           end
+         else match ret, b with
+              | TyNone, SBNone => is_setter k || is_ctor k || rx_sig r
+              | _, _ => true
+              end)
+    end
+  with gf_p (p : sparam) : bool := match p with SParam _ _ _ d _ => gf_e d end.
+
+  (* parameter property without annotation and without simply inferable default (F-C10c) *)
+  Definition gf_prop (p : sparam) : bool :=
+    match p with
+    | SParam _ TyNone _ d (Some (a, _)) =>
+        is_private a || rx_bare r || match infer d with Some _ => true | None => false end
+    | _ => true
+    end.
+End Gap.
